@@ -30,6 +30,19 @@ def _fill(rng: random.Random, n: int) -> bytearray:
 
 
 def devreply(d: dict, dev_state: dict) -> bytes:
+    """Reply bytes for a descriptor.  Every second reply carries the header real devices send (magic, its own total length,
+    header terminator) around the same random filler; a reply cut short keeps the length its header announced."""
+    b = _devreply(d, dev_state)
+    if d["t"] in ("login", "ack", "state1", "thermo", "shutter", "sched", "listing") and len(b) >= 44 and d.get("hdr", d.get("seed", 1) % 2 == 0):
+        b = bytearray(b)
+        b[0:2] = b"\xfe\xf0"
+        b[2:4] = len(b).to_bytes(2, "little")
+        b[38:40] = b"\xf0\xfe"
+        b = bytes(b)
+    return b
+
+
+def _devreply(d: dict, dev_state: dict) -> bytes:
     t = d["t"]
     rng = random.Random(d.get("seed", 1))
     if t == "eof":
@@ -123,6 +136,10 @@ def _remote_for(irset: dict, cache: dict):
         else:
             cache[key] = SwitcherBreezeRemote(irset)
     return cache[key]
+
+
+class CallerGaveUp(Exception):
+    """The caller's own patience ran out (its wait_for around the call fired)."""
 
 
 class _Minutes(int):
@@ -238,7 +255,7 @@ class Run:
         self.scn = scn
         self.ev: list[dict] = []
         self.net = vnet.VNet()
-        self.loop = vnet.VLoop(self.net)
+        self.loop = vnet.VLoop(self.net, vtime=True)      # virtual clock: a slow device or a timeout costs no real time
         self.apis = []
         self.devs = []
         self.remotes: dict = {}
@@ -280,6 +297,9 @@ class Run:
         pending: dict[int, bytes] = {}    # instance -> frame waiting for its reply
         order = list(scn.get("order", []))
 
+        def conn_of(k: int):
+            return [c for c in self.net.conns if c.tag == k][-1]
+
         def start_next(k: int):
             ops = scn["ops"][k]
             if cursors[k] >= len(ops):
@@ -288,6 +308,10 @@ class Run:
             cursors[k] += 1
             if op.get("tick"):
                 self.clk.shift(op["tick"])
+            if op["op"] == "reconnect":          # the caller closes the connection and opens a new one with the same API object
+                tasks[k] = asyncio.ensure_future(self._reconnect(k))
+                cur_ops[k] = op
+                return True
             scripts[k] = list(op["replies"])
             nwrites[k] = 0
             if op["op"] in ("create_schedule", "get_schedules"):
@@ -302,7 +326,7 @@ class Run:
             except Exception as x:  # noqa: BLE001 - raised while building the call (argument conversion)
                 self._ret(k, op, None, x)
                 return start_next(k)
-            tasks[k] = asyncio.ensure_future(self._wrap(coro))
+            tasks[k] = asyncio.ensure_future(self._wrap(coro, op.get("patience")))
             cur_ops[k] = op
             return True
 
@@ -325,7 +349,11 @@ class Run:
                 if t is not None and t.done():
                     tasks[k] = None
                     res, exc = t.result()
-                    if k in pending and any(c.tag == k and c.sent_eof for c in self.net.conns):
+                    if cur_ops[k]["op"] == "reconnect":
+                        pending.pop(k, None)
+                        start_next(k)
+                        continue
+                    if k in pending and any(c.tag == k and c.sent_eof and not c.closing for c in self.net.conns):
                         # the stream had already ended: the read after this write returned b'' at once
                         self.log(ev="Reply", c=k + 1, b=[], src="script")
                     self._ret(k, cur_ops[k], res, exc)
@@ -339,6 +367,9 @@ class Run:
                 if any(t is not None and not t.done() for t in tasks):
                     # a call is blocked although nothing is pending: it waits for a reply it never asked for
                     await vnet.settle(40)      # generous: an operation may take further loop cycles between its steps
+                    if not pending and self.net.queue.empty() and not any(t is not None and t.done() for t in tasks):
+                        await asyncio.sleep(7200)      # ... or (virtual) time: whatever timer it sleeps on fires now, the caller's patience included
+                        await vnet.settle(40)
                     if not pending and self.net.queue.empty() and not any(t is not None and t.done() for t in tasks):
                         for k, t in enumerate(tasks):
                             if t is not None:
@@ -370,6 +401,26 @@ class Run:
             if op.get("tick_mid"):
                 self.clk.shift(op["tick_mid"])
             d = scripts[k].pop(0) if scripts[k] else {"t": "eof"}
+            if d.get("delay"):
+                # a slow device: it answers this frame `delay` (virtual) seconds after it arrived; a client that does not wait
+                # that long has ended its call while the reply was pending (and the device then keeps the answer to itself)
+                await asyncio.sleep(d["delay"])
+                await vnet.settle(3)
+                if tasks[k] is not None and tasks[k].done():
+                    # the call ended before the answer came.  If the caller gave up, the device keeps the answer to itself (the
+                    # drivers' assumption for abandoned calls); if the LIBRARY gave up, the device answers all the same - late
+                    res, exc = tasks[k].result()
+                    tasks[k] = None
+                    self._ret(k, cur_ops[k], res, exc)
+                    if not isinstance(exc, CallerGaveUp) and not conn_of(k).closing:
+                        data = devreply(d, self.devs[k])
+                        self.log(ev="Late", c=k + 1, b=list(data))
+                        conn_of(k).feed(data)
+                        await vnet.settle(3)
+                    if not self.apis[k].connected:       # a library that hung up on the slow device: the caller connects again
+                        scn["ops"][k].insert(cursors[k], {"op": "reconnect", "after_hangup": True})
+                    start_next(k)
+                    continue
             conn = next(c for c in self.net.conns if c.tag == k and not c.closing)
             data = b"" if conn.sent_eof else devreply(d, self.devs[k])
             self.log(ev="Reply", c=k + 1, b=list(data), src="device" if (d["t"] == "listing" and data) else "script")
@@ -381,15 +432,41 @@ class Run:
             self.log(ev="Disc", c=k + 1, how="disconnect", raised=False, flag=bool(api.connected), eof=bool(conn.closed_seen))
 
     @staticmethod
-    async def _wrap(coro):
+    async def _wrap(coro, patience=None):
         try:
+            if patience:       # the caller waits so long and no longer (asyncio.wait_for around the call)
+                t = asyncio.ensure_future(coro)
+                done, _ = await asyncio.wait({t}, timeout=patience)
+                if not done:
+                    t.cancel()
+                    await asyncio.wait({t})
+                    return (None, CallerGaveUp())
+                return (t.result(), None)
             return (await coro, None)
         except asyncio.CancelledError:
             raise
         except Exception as x:  # noqa: BLE001 - the class is what the specification judges
             return (None, x)
 
+    async def _reconnect(self, k: int):
+        api = self.apis[k]
+        old = [c for c in self.net.conns if c.tag == k][-1]
+        raised = False
+        try:
+            await api.disconnect()
+        except Exception:  # noqa: BLE001
+            raised = True
+        await vnet.settle(3)
+        self.log(ev="Disc", c=k + 1, how="disconnect", raised=raised, flag=bool(api.connected), eof=bool(old.closed_seen))
+        await api.connect()
+        self.net.conns[-1].tag = k
+        self.log(ev="Connect", c=k + 1, ok=True, flag=bool(api.connected))
+        return (None, None)
+
     def _ret(self, k: int, op: dict, res, exc):
+        if isinstance(exc, CallerGaveUp):
+            self.log(ev="Ret", c=k + 1, out="cancelled", exc="CancelledError", ok=False, r={})
+            return
         if exc is not None:
             out = "runtime" if type(exc) is RuntimeError else "raise"
             self.log(ev="Ret", c=k + 1, out=out, exc=type(exc).__name__, ok=False, r={})
@@ -496,7 +573,7 @@ class ScriptRun(Run):
                 if t is not None and t.done():
                     tasks[k] = None
                     res, exc = t.result()
-                    if k in pending and any(c.tag == k and c.sent_eof for c in self.net.conns):
+                    if k in pending and any(c.tag == k and c.sent_eof and not c.closing for c in self.net.conns):
                         self.log(ev="Reply", c=k + 1, b=[], src="script")
                     self._ret(k, cur[k], res, exc)
                     pending.pop(k, None)
